@@ -170,7 +170,19 @@ def local_is_read_before_dead(fn, store, d):
     p1 = find_path_avoiding(cfg, is_read, is_kill, None, (b, idx + 1))
     if p1 is not None:
         return ("overwritten", p1)
-    p2 = reaches_exit_avoiding(cfg, is_read, None, (b, idx + 1))
+    def reports_failure(e):
+        # `return <failure constant>`: the function still reports an error on this path, only with its own code
+        if e.k != "ReturnStmt" or not e.c or e.c[0] is None or e.c[0].cv is None:
+            return False
+        rt = fn.ret or ""
+        if "*" in rt:
+            return e.c[0].cv == 0
+        if rt.strip() in ("bool", "_Bool"):
+            return e.c[0].cv == 0
+        if "carquet_status_t" in rt or rt.strip() == "int":
+            return e.c[0].cv != 0
+        return False
+    p2 = reaches_exit_avoiding(cfg, lambda e: is_read(e) or reports_failure(e), None, (b, idx + 1))
     if p2 is not None:
         return ("exit", p2)
     return None
